@@ -8,6 +8,7 @@
    that every real stream is in the image of [fl_code]. *)
 From MW Require Import PyBase Nodes Builder Flatten BuilderProofs.
 From MW Require Import HeadingFrag HeadingFragProofs.
+From MW Require Import EntityFrag EntityFragProofs.
 
 Theorem C02_build_total_partial : forall c, wf_code c -> exists t, build (fl_code c) = Ok t.
 Proof. exact build_total_lemma. Qed.
@@ -31,3 +32,8 @@ Theorem C02_fragment_total : forall md s, exists c, build (frag_tokens md s) = O
 Proof. intros md s. destruct (frag_end_to_end md s) as (c & H & _). now exists c. Qed.
 
 Print Assumptions C02_fragment_total.
+
+Theorem C02_entity_fragment_total : forall markers names msize s, exists c, build (efrag_tokens markers names msize s) = Ok c.
+Proof. intros m n k s. destruct (efrag_end_to_end m n k s) as (c & H & _). now exists c. Qed.
+
+Print Assumptions C02_entity_fragment_total.
